@@ -264,4 +264,3 @@ func c14Narrow(c *core.Ctx) {
 		c.Floor("integer-conversions-in-encoders", nConv, 1)
 	})
 }
-
